@@ -750,6 +750,13 @@ fn cmd_check(args: &Args) -> i32 {
             protocol_n
         );
     }
+    let format_n = stats.get(C::advisory_format_observations);
+    if format_n > 0 {
+        println!(
+            "FORMAT-NOTE: {} observation(s) in phase B (the crate's Serialize and Deserialize under the simulator's binary, not human-readable format: disagreement with each other, acknowledgement after a sink error, inexact acknowledged bytes, torn record accepted); advisory only (C12/C13 speak of the JSON round trip) - see DESIGN.md 7.10",
+            format_n
+        );
+    }
     if robustness_n > 0 {
         println!(
             "ROBUSTNESS-NOTE: {} panic(s) while reading torn or corrupted records; advisory only (what parsing does with arbitrary text is C05/C06's business) - see DESIGN.md 7.8",
@@ -880,6 +887,8 @@ fn cmd_check(args: &Args) -> i32 {
                 "protocol_observations": protocol_n,
                 "robustness_observations": robustness_n,
                 "note": "runs in which a stub re-entered the crate are advisory: nothing they observe changes the verdict",
+                "format_observations": format_n,
+                "format_note": "phase B (the simulator's second, binary format) is advisory: C12/C13 speak of the JSON round trip; --strict-advisory promotes its observations to violations",
                 "switched_off": args.reenter_note,
             },
             "simulated_time_s": 0,
